@@ -7,6 +7,7 @@ deterministically at execution time, so a history replays without Hypothesis.
 """
 import copy
 import os
+import sys
 from datetime import timedelta
 
 from . import gen, model, qast
@@ -38,12 +39,66 @@ class frozen_clock:
             def now(cls, tz=None):
                 return CLOCK if tz is None else CLOCK.astimezone(tz)
 
-        self._D, self._old = D, D.datetime
-        D.datetime = FrozenDatetime
+            @classmethod
+            def utcnow(cls):
+                return CLOCK.astimezone(_dt.timezone.utc).replace(tzinfo=None)
+
+        class DatetimeModuleProxy:
+            """Stands in for the `datetime` module (under whatever alias a tinyflux module imported it)."""
+
+            datetime = FrozenDatetime
+
+            def __getattr__(self, n):
+                return getattr(_dt, n)
+
+        # tinyflux.database is where points are stamped; any other tinyflux module that binds the class (or the datetime module)
+        # and asks it for the current time is covered as well, so that moving the stamping code between modules, or changing the
+        # import style, does not blind the harness
+        self._saved = []
+        modproxy = DatetimeModuleProxy()
+        for name, mod in list(sys.modules.items()):
+            if mod is None or not name.startswith("tinyflux."):
+                continue
+            if mod is not D:
+                try:
+                    with open(mod.__file__) as f:
+                        src = f.read()
+                except (OSError, TypeError, AttributeError):
+                    continue
+                if ".now(" not in src and ".utcnow(" not in src:
+                    continue
+            for gname, val in list(vars(mod).items()):
+                if val is real:
+                    self._saved.append((mod, gname, val))
+                    setattr(mod, gname, FrozenDatetime)
+                elif val is _dt:
+                    self._saved.append((mod, gname, val))
+                    setattr(mod, gname, modproxy)
+        self._self_test()
         return self
 
+    def _self_test(self):
+        """Is the clock really under control?  If tinyflux obtains the time in a way the harness does not own, histories
+        go without time-less inserts (counted) instead of comparing against a time the model cannot know."""
+        from tinyflux import Point, TinyFlux
+        from tinyflux.storages import MemoryStorage
+
+        global CLOCK_CONTROLLED
+        try:
+            db = TinyFlux(storage=MemoryStorage)
+            p = Point()
+            db.insert(p)
+            got = [x.time for x in iter(db)]
+            CLOCK_CONTROLLED = got == [CLOCK]
+        except Exception:
+            CLOCK_CONTROLLED = True  # not this helper's business: the checks themselves will report what is wrong
+
     def __exit__(self, *a):
-        self._D.datetime = self._old
+        for mod, gname, old in reversed(self._saved):
+            setattr(mod, gname, old)
+
+
+CLOCK_CONTROLLED = True
 
 
 class CallableRaised(Exception):
@@ -339,6 +394,9 @@ class Lockstep:
         (the frozen CLOCK).  bad_after: a non-Point follows them in the same insert_multiple call, which must raise after storing them."""
         from tinyflux import Point
 
+        if not CLOCK_CONTROLLED:
+            self.ctx.acc.cls("insert_stamped_skipped_clock_not_controlled")
+            return
         meas = None if via == "db" else mp["measurement"]
         for real in self.reals:
             items = []
@@ -386,10 +444,22 @@ class Lockstep:
                     self.flags.add("out_of_order")
                 latest = m["time"] if latest is None else max(latest, m["time"])
         use_meas = meas if via != "db" else None
+        # bad_at >= 100: the offending element is a well-formed Point that CSV storage cannot write (a lone surrogate cannot be
+        # encoded), i.e. the failure strikes inside the storage layer's append; memory storage accepts such a point, so memory
+        # databases are given the points before it only
+        unencodable = bad_at is not None and bad_at >= 100
+        if unencodable:
+            bad_at -= 100
         ok_prefix = mps if bad_at is None else mps[: min(bad_at, len(mps))]
         for real in self.reals:
             items = [gen.to_point(m, gen.OFFSETS[(tz + i) % len(gen.OFFSETS)]) for i, m in enumerate(mps)]
-            if bad_at is not None:
+            if unencodable and real.kind != "csv":
+                items = items[: len(ok_prefix)]
+            elif unencodable:
+                from tinyflux import Point
+
+                items.insert(min(bad_at, len(items)), Point(time=max([m["time"] for m in mps] + [p["time"] for p in self.model.points]), measurement="m1", tags={"a": "x\ud800"}, fields={"a": 1}))
+            elif bad_at is not None:
                 items.insert(min(bad_at, len(items)), {"not": "a point"})
             if via in ("handle", "old_handle"):
                 fn = lambda: real.handle(use_meas, via == "old_handle").insert_multiple(iter(items))  # noqa: E731
@@ -397,17 +467,19 @@ class Lockstep:
                 fn = lambda: real.db.insert_multiple(iter(items), measurement=use_meas)  # noqa: E731
             else:
                 fn = lambda: real.db.insert_multiple(items)  # noqa: E731
-            if bad_at is None:
+            if bad_at is None or (unencodable and real.kind != "csv"):
                 r = self.call(real, "insert_multiple", fn)
-                if r != len(mps):
-                    self.fail("insert_multiple-return", real, "returned %r for %d points" % (r, len(mps)))
+                if r != len(items):
+                    self.fail("insert_multiple-return", real, "returned %r for %d points" % (r, len(items)))
             else:
-                self.expect_raise(real, "insert_multiple-bad", fn, (TypeError,))
+                self.expect_raise(real, "insert_multiple-bad", fn, (UnicodeError,) if unencodable else (TypeError,))
         for m in ok_prefix:
             self.model.insert(m, use_meas)
         if bad_at is not None:
             self.flags.add("raised")
             self.flags.add("raised_mid" if 0 < bad_at < len(mps) + 1 and ok_prefix else "raised_edge")
+            if unencodable:
+                self.flags.add("raised_in_storage")
         self.flags.add("insert")
 
     def op_remove(self, q, m, via):
@@ -554,6 +626,18 @@ class Lockstep:
         self.flags.add("raised")
 
     def op_bad_insert(self, kind):
+        if kind == "surrogate":
+            # a valid Point whose text CSV storage cannot encode: the failure strikes inside the storage layer's append
+            from tinyflux import Point
+
+            for real in self.reals:
+                if real.kind != "csv":
+                    continue
+                p = Point(time=gen.T0 + timedelta(days=900), measurement="m1", tags={"a": "x\ud800"}, fields={"a": 1})
+                self.expect_raise(real, "bad_insert-" + kind, lambda: real.db.insert(p), (UnicodeError,))
+            self.flags.add("raised")
+            self.flags.add("raised_in_storage")
+            return
         if kind == "overflow_int":
             # a valid Point that CSV storage cannot serialize (int beyond the float range, see C05/KF-int-overflow): the insert
             # raises on CSV databases and must leave them untouched; memory databases accept the point, so they are not given it
